@@ -58,10 +58,10 @@ Ev(act, s) ==
 ---------------------------------------------------------------------------
 (* items *)
 It(k, n, srv) == [k |-> k, n |-> n, uid |-> 0, suid |-> IF k = "FETCH" /\ n \in DOMAIN srv THEN srv[n] ELSE 0,
-                  hasfl |-> FALSE, fl |-> {}, srv |-> srv, infl |-> "", iuid |-> FALSE, bid |-> 0]
+                  hasfl |-> FALSE, fl |-> {}, srv |-> srv, infl |-> "", iuid |-> FALSE, bid |-> 0, st |-> FALSE]
 FetchIt(n, ms, withUid) ==
     [k |-> "FETCH", n |-> n, uid |-> IF withUid THEN ms[n].uid ELSE 0, suid |-> ms[n].uid,
-     hasfl |-> TRUE, fl |-> ms[n].fl, srv |-> Uids(ms), infl |-> "", iuid |-> FALSE, bid |-> 0]
+     hasfl |-> TRUE, fl |-> ms[n].fl, srv |-> Uids(ms), infl |-> "", iuid |-> FALSE, bid |-> 0, st |-> FALSE]
 Stamp(its, kind, u) == [i \in DOMAIN its |-> [its[i] EXCEPT !.infl = kind, !.iuid = u]]
 HasPendExp(sx, s) == \E i \in DOMAIN sx[s].pend : sx[s].pend[i].k = "EXPUNGE"
 
@@ -85,7 +85,8 @@ PushExists(acc, W, it) ==
 (* flush of s's pend queue into out *)
 Flush(acc, s, kind, u) ==
     [ss |-> [acc.ss EXCEPT ![s].pend = <<>>],
-     out |-> [acc.out EXCEPT ![s] = @ \o Stamp(acc.ss[s].pend, kind, u)]]
+     out |-> [acc.out EXCEPT ![s] = @ \o [i \in DOMAIN acc.ss[s].pend |->
+                                              [Stamp(acc.ss[s].pend, kind, u)[i] EXCEPT !.st = TRUE]]]]
 
 ---------------------------------------------------------------------------
 (* folder helpers *)
